@@ -451,6 +451,17 @@ m("indexpair-adjust-shares-index", "TAB-INDEXPAIR", ["C09", "C11"], "break", ST,
   "\tsymbols := s.symbols[:maxID]\n\tindex := buildIndex(symbols, 1)\n", "\tsymbols := s.symbols[:maxID]\n\tindex := s.index\n", "Adjust", True,
   "a shrunk import still resolves text beyond its max_id")
 
+
+m("budget-readstring-fixed-len", "TAB-BUDGET", ["C03", "C08"], "break", BS,
+  "\tif b.code != bitcodeString {\n\t\tpanic(\"not a string\")\n\t}\n\n\tbs, err := b.readN(b.len)", "\tif b.code != bitcodeString {\n\t\tpanic(\"not a string\")\n\t}\n\n\tbs, err := b.readN(b.len + 1)", "ReadString", True,
+  "a string swallows the first byte of the next value")
+m("fixedlst-invent-id", "OWN-FIXEDLST", ["C11"], "break", BW,
+  "\t\tif !ok {\n\t\t\treturn 0, &UsageError{api, fmt.Sprintf(\"symbol '%v' not defined\", sym)}\n\t\t}\n\t\treturn id, nil", "\t\tif !ok {\n\t\t\treturn w.lst.MaxID() + 1, nil\n\t\t}\n\t\treturn id, nil", "not defined", True,
+  "an ID past the fixed table is written for unknown text")
+m("reflectset-pointer-into-struct", "TAB-REFLECTSET", ["C17"], "break", UM,
+  "\t\tif v.Type() == symbolType {\n\t\t\tif val != nil {\n\t\t\t\tv.Set(reflect.ValueOf(*val))", "\t\tif v.Type() == symbolType {\n\t\t\tif val != nil {\n\t\t\t\tv.Set(reflect.ValueOf(val))", "decodeSymbolTo", True,
+  "a *SymbolToken is set into a SymbolToken (reflect panics)")
+
 os.makedirs(os.path.dirname(os.path.abspath(__file__)), exist_ok=True)
 with open(os.path.join(os.path.dirname(os.path.abspath(__file__)), "core.json"), "w") as f:
     json.dump(M, f, indent=1)
